@@ -814,5 +814,53 @@ func singleDef(info *types.Info, body ast.Node, e ast.Expr) ast.Expr {
 	if len(defs) == 1 {
 		return ast.Unparen(defs[0])
 	}
+	// a helper expanded at several call sites defines its local once per expansion: still "one"
+	// definition when all of them call the same function
+	if len(defs) > 1 {
+		var fn0 *types.Func
+		same := true
+		for i, d := range defs {
+			call, ok := ast.Unparen(d).(*ast.CallExpr)
+			if !ok {
+				same = false
+				break
+			}
+			fn := Callee(info, call)
+			if i == 0 {
+				fn0 = fn
+			}
+			if fn == nil || fn != fn0 {
+				same = false
+			}
+		}
+		if same {
+			return ast.Unparen(defs[0])
+		}
+	}
 	return e
+}
+
+// allDefs lists the right-hand sides of every assignment to the local named by id in body
+// (for `v, err := f()` the call counts as the definition of v).
+func allDefs(info *types.Info, body ast.Node, id *ast.Ident) []ast.Expr {
+	o := info.Uses[id]
+	if o == nil {
+		return nil
+	}
+	var defs []ast.Expr
+	ast.Inspect(body, func(n ast.Node) bool {
+		if as, ok := n.(*ast.AssignStmt); ok {
+			if len(as.Lhs) == len(as.Rhs) {
+				for i, l := range as.Lhs {
+					if objOf(info, l) == o {
+						defs = append(defs, ast.Unparen(as.Rhs[i]))
+					}
+				}
+			} else if len(as.Rhs) == 1 && len(as.Lhs) > 1 && objOf(info, as.Lhs[0]) == o {
+				defs = append(defs, ast.Unparen(as.Rhs[0]))
+			}
+		}
+		return true
+	})
+	return defs
 }
